@@ -140,15 +140,15 @@ func (s *MultipartReply) UnmarshalBinary(data []byte) error {
 		var repl util.Message
 		switch s.Type {
 		case MultipartType_Aggregate:
-			repl = new(AggregateStats)
+			repl = NewAggregateStats()
 		case MultipartType_Desc:
-			repl = new(DescStats)
+			repl = NewDescStats()
 		case MultipartType_Flow:
-			repl = new(FlowStats)
+			repl = NewFlowStats()
 		case MultipartType_Port:
-			repl = new(PortStats)
+			repl = NewPortStats()
 		case MultipartType_Table:
-			repl = new(TableStats)
+			repl = NewTableStats()
 		case MultipartType_Queue:
 			repl = new(QueueStats)
 		// FIXME: Support all types
